@@ -683,6 +683,23 @@ def reuse_scan(ck, key, outs, describe):
     ck.count("calls repeated into used output objects", n)
 
 
+def first_nonfinite(o, exclude=()):
+    """name of the first numeric output of a driver case that holds NaN/Inf (comparisons of the form `difference > tolerance`
+    are blind to NaN: results that must be finite are tested for it explicitly)"""
+    def bad(v):
+        if isinstance(v, float):
+            return v != v or v in (float("inf"), float("-inf"))
+        if isinstance(v, (list, tuple)):
+            return any(bad(x) for x in v)
+        return False
+    for k, v in o.items():
+        if k in exclude or k.endswith(".shape"):
+            continue
+        if bad(v):
+            return k
+    return None
+
+
 def run_driver_cases(ck, exe, lines, describe, header="", timeout=900, case_timeout=40, env=None, max_bad=5):
     """run one case per line; a case on which the library hangs (no answer within case_timeout seconds), crashes or
     aborts is reported as a FAILURE of the property with that input (describe(k) -> (site, input dict)), the remaining
